@@ -638,10 +638,10 @@ M2AF = "snaxc/transforms/convert_memref_to_arith.py"
 M2SF = "snaxc/transforms/memref_to_snax.py"
 CASTSF = "snaxc/transforms/realize_memref_casts.py"
 CASES["C10"] += [
-    ("subview: k-th dynamic offset paired with dimension k", "mutant", M2AF, "        for offset, index in zip(subview.offsets, dynamic_index_list):", "        for index, offset in enumerate(subview.offsets):", ["C10.subview-pointer"]),
+    ("subview: k-th dynamic offset paired with dimension k", "mutant", M2AF, "list(zip(subview.offsets, dynamic_index_list))", "[(offset, index) for index, offset in enumerate(subview.offsets)]", ["C10.subview-pointer"]),
     ("subview: offset divided by the whole dimension's tile product", "mutant", M2AF, "for stride in source_type.layout.data.tstrides[index].strides[1:])", "for stride in source_type.layout.data.tstrides[index].strides)", ["C10.subview-pointer"]),
     ("subview: innermost step instead of the outermost", "mutant", M2AF, "            stride = source_type.layout.data.tstrides[index].strides[0].step", "            stride = source_type.layout.data.tstrides[index].strides[-1].step", ["C10.subview-pointer"]),
-    ("twin: subview dimension list built with a loop", "twin", M2AF, "        dynamic_index_list = [\n            i for i, offset in enumerate(subview.static_offsets.get_values()) if offset == DYNAMIC_INDEX\n        ]\n", "        dynamic_index_list = []\n        for dim_no, static_offset in enumerate(subview.static_offsets.get_values()):\n            if static_offset == DYNAMIC_INDEX:\n                dynamic_index_list.append(dim_no)\n", []),
+    ("twin: subview dimension list built with a loop", "twin", M2AF, "        dynamic_index_list = [i for i, offset in enumerate(static_offsets) if offset == DYNAMIC_INDEX]\n", "        dynamic_index_list = []\n        for dim_no, static_offset_ in enumerate(static_offsets):\n            if static_offset_ == DYNAMIC_INDEX:\n                dynamic_index_list.append(dim_no)\n", []),
 ]
 CASES["C11"] += [
     ("alloc: dynamic sizes taken from the back", "mutant", M2SF, "                shape_ops.append(alloc_args.pop(0))", "                shape_ops.append(alloc_args.pop())", ["C11.dynamic-sizes"]),
@@ -833,4 +833,39 @@ CASES["C08"] += [
     ("gemmx looks for the rescale right behind the matmul", "mutant", "snaxc/accelerators/snax_gemmx.py",
      "if isinstance(region_yield.prev_op, dart.GenericOp) and isinstance(\n                    rescale_op := region_yield.prev_op.body.block.first_op,",
      "if isinstance(generic_op.next_op, dart.GenericOp) and isinstance(\n                    rescale_op := generic_op.next_op.body.block.first_op,", ["C08.rescale-source"]),
+]
+
+CASES["C10"] += [
+    ("reintroduce F-41 (static subview offsets ignored, pointer replaced by the element-size constant)", "mutant", "snaxc/transforms/convert_memref_to_arith.py", "@revert:c599cb9~1", "", ["C10.subview-pointer"]),
+    ("subview pointer replaced by the last new op again", "mutant", "snaxc/transforms/convert_memref_to_arith.py",
+     "rewriter.replace_op(op, ops_to_add, [aligned_pointer.results[0]])", "rewriter.replace_op(op, ops_to_add)", ["C10.subview-pointer"]),
+    ("static offsets of 1 are skipped too", "mutant", "snaxc/transforms/convert_memref_to_arith.py",
+     "if static_offset != DYNAMIC_INDEX and static_offset != 0:", "if static_offset != DYNAMIC_INDEX and static_offset > 1:", ["C10.subview-pointer"]),
+]
+
+CASES["C14"] += [
+    ("xDMA regions recognised by registered name (dm rule)", "mutant", "snaxc/util/dispatching_rules.py",
+     "        accelerator_type = ctx.get_acc(op.accelerator.data)\n        if isinstance(accelerator_type, SNAXXDMAAccelerator) and isinstance(\n            str_op := op.body.block.first_op, dart.GenericOp\n        ):\n            kernel_op = str_op.body.block.first_op\n            # Only dispatch",
+     "        if op.accelerator.data == SNAXXDMAAccelerator.name and isinstance(\n            str_op := op.body.block.first_op, dart.GenericOp\n        ):\n            kernel_op = str_op.body.block.first_op\n            # Only dispatch", ["C14.xdma-by-type"]),
+]
+
+CASES["C18"] += [
+    ("dispatch tests the body's last op for the yield", "mutant", "snaxc/transforms/dispatch_kernels.py",
+     "if not isinstance(next(linalg_body_ops), linalg.YieldOp):", "if not isinstance(linalg_op.body.block.last_op, linalg.YieldOp):", ["C18.single-kernel"]),
+]
+
+CASES["C15"] += [
+    ("a buffer seen before in the stage is not recorded again", "mutant", "snaxc/transforms/pipeline/construct_pipeline.py",
+     "                def rewrite_operand(operand: Operand, index: int, is_input: bool):\n",
+     "                def rewrite_operand(operand: Operand, index: int, is_input: bool):\n                    if operand in input_buffers or operand in output_buffers:\n                        return\n", ["C15.stage-shape"]),
+]
+
+CASES["C13"] += [
+    ("only results are followed for ops that are not copies", "mutant", "snaxc/transforms/insert_sync_barrier.py",
+     "for operand in [*op_in_module.operands, *op_in_module.results]:", "for operand in [*op_in_module.results]:", ["C13.every-value"]),
+]
+
+CASES["C02"] += [
+    ("pointer shift left in elements while strides are scaled to bytes", "mutant", "snaxc/transforms/dart/dart_layout_resolution.py",
+     "data_mem_map: AffineMap = memref_type.get_affine_map_in_bytes()", "data_mem_map: AffineMap = memref_type.get_affine_map()", ["C02.offset"]),
 ]
